@@ -24,7 +24,7 @@ RULE = (
     "callback; then for every callback and every k in 1..N_c the call is repeated with a wrapper raising a private "
     "exception at the k-th invocation.  Oracle: the deep snapshot (attribute-name set and canonicalised values of "
     "every vertex, link, universe and law set via vars()) after the clean run and after every faulted run equals "
-    "the one before, and a repeat with the well-behaved callback returns the clean run's answer.  Non-trivial "
+    "the one before, and a repeat with the well-behaved callback returns the clean run's answer (for the last fault point of every entry point the repeat is issued from another thread, which must return).  Non-trivial "
     "fault point = N_c >= 2 and k >= 2 (the fault fires after work has been done); distinct = (world, caching, "
     "entry point, callback, k)."
 )
@@ -158,6 +158,20 @@ def entries(vs, ls, u, start, sub):
     return E
 
 
+_STUCK = object()
+_STUCK_AFTER_S = 45
+
+
+def _in_other_thread(fn):
+    import threading
+
+    box = []
+    t = threading.Thread(target=lambda: box.append(fn()), daemon=True)
+    t.start()
+    t.join(_STUCK_AFTER_S)
+    return box[0] if box else _STUCK
+
+
 def outcome(call, f):
     try:
         return ("ok", call(f))
@@ -229,7 +243,15 @@ def check_case(case):
                 same = outcome(call, faulty)
                 if same != clean:
                     raise Violation(f"answer-differs-after-fault:{name}", f"{name}: after a transient fault at invocation {k}/{N} the same (now well-behaved) callable gives {str(same)[:200]}, the clean run gave {str(clean)[:200]} (caching={case['cache']})")
-                again = outcome(call, good)
+                if k == N:
+                    # the well-behaved repeat issued from ANOTHER thread (the faulted call must not have left a
+                    # lock or similar resource held by this one); this thread only waits
+                    again = _in_other_thread(lambda: outcome(call, good))
+                    if again is _STUCK:
+                        raise Violation(f"repeat-never-returns-after-fault:{name}", f"{name}: after a fault at invocation {k}/{N} (caching={case['cache']}) the well-behaved call, issued from another thread, did not return within {_STUCK_AFTER_S} s (it takes microseconds)")
+                    classes.add("repeat-from-another-thread")
+                else:
+                    again = outcome(call, good)
                 if again != clean:
                     raise Violation(f"answer-differs-after-fault:{name}", f"{name}: after a fault at invocation {k}/{N} the well-behaved call gives {str(again)[:200]}, the clean run gave {str(clean)[:200]}")
                 now = deep_snapshot(objs)
